@@ -98,7 +98,7 @@ def judge(case, rz, err2, Zd, n, Qs, scale, budget_total, what):
     return None
 
 
-def near_symmetric(case, rng):
+def near_symmetric(case, rng, exact=False):
     """A d = 2 member whose n x n unfolding is symmetric up to a relative perturbation of ~1e-6 (returns None if the
     case has no such relative): the last index is re-labelled so that two entries of equal energy become mirror images
     (a symmetry of the family), and every amplitude is perturbed by (1 + eta_t), |eta_t| <= 3 * 2^-22.  Decisions of the
@@ -115,11 +115,13 @@ def near_symmetric(case, rng):
     tau[t0], tau[u0] = u0, t0
     c = {t: int(ent[tau[t]]['pre'][0]) for t in range(n)}            # new last index of entry t
     etas = rng.permutation([1, -1, 2, -2, 3, -3, 0, 0][:max(n, 2)])[:n] * 2.0 ** -22
+    if exact:
+        etas = etas * 0.          # exactly symmetric (and indefinite: a mirrored pair has the eigenvalues +amp, -amp)
     new_ent = [None] * n
     for t in range(n):
         new_ent[c[t]] = dict(pre=ent[t]['pre'], en=float(ent[t]['en']) * (1 + etas[t]) ** 2)
     outs = [dict(o, live=[c[j - 1] + 1 for j in o['live']]) for o in case['outcomes']]
-    return dict(case, ent=new_ent, outcomes=outs, N=float(sum(e['en'] for e in new_ent)), near_symmetric=True)
+    return dict(case, ent=new_ent, outcomes=outs, N=float(sum(e['en'] for e in new_ent)) if not exact else case['N'], near_symmetric=True, symmetric_exact=bool(exact))
 
 
 def cap_arg(case, rng):
@@ -194,8 +196,9 @@ def replay_matrix(ctx, case, rng, fn, give_to=None, scale_pow=0):
     cap = cap_arg(case, rng)
     transpose = False
     if fn == 'skeleton':
-        U, V = teneva.matrix_skeleton(np.array(A), e, cap, rel=rel, give_to=give_to)
-        what = 'matrix_skeleton(e=%.4g, r=%s, rel=%s, give_to=%s, 2^%d)' % (e, cap, rel, give_to, scale_pow)
+        herm = bool(case.get('symmetric_exact')) and rng.random() < 0.7       # the documented flag for symmetric input: same factorisation contract
+        U, V = teneva.matrix_skeleton(np.array(A), e, cap, rel=rel, give_to=give_to, hermitian=True) if herm else teneva.matrix_skeleton(np.array(A), e, cap, rel=rel, give_to=give_to)
+        what = 'matrix_skeleton(e=%.4g, r=%s, rel=%s, give_to=%s, 2^%d%s)' % (e, cap, rel, give_to, scale_pow, ', hermitian=True on a symmetric indefinite matrix' if herm else '')
     else:
         if rng.random() < 0.5:      # wide and tall inputs take different branches
             transpose = True
